@@ -3,9 +3,11 @@
 (* generation of one script per transition of the abstract graph (C03, C11, C16). *)
 EXTENDS PPolyObj, Json, FiniteSets
 
-CONSTANTS Ids, Fixed, Ncs, Segs, Versions, MaxOps, Emit, Broken
+CONSTANTS Ids, Fixed, Ncs, Segs, Versions, MaxOps, Emit, Broken, KindSet, EvalKs, DerivKs
+\* KindSet, EvalKs, DerivKs narrow the alphabet so that deeper histories stay enumerable (focused generators)
 \* Fixed: order parameter of the class (0 = dynamic); Ncs: coefficient counts tried; Segs: segment counts tried
-\* Broken twins: "noinvalidate" (update keeps the derivative cache), "keeptable" (update keeps the factor table)
+\* Broken twins: "noinvalidate" (update keeps the derivative cache), "keeptable" (update keeps the factor table),
+\* "assignkeep" (assignment takes over the source's caches only when they are built, else the destination keeps its own)
 
 VARIABLES hist, last
 mvars == <<pobjs, hist, last>>
@@ -16,19 +18,22 @@ Shape(kind, nseg, nc) ==
       [] kind = "few_bp" -> [nbp |-> 1, rows |-> 0]
       [] kind = "row_mismatch" -> [nbp |-> nseg + 1, rows |-> nseg * nc + 1]
 
+\* opaque data of an object: a flat tag sequence (comparable with every other tag: position i has the same type in all of them)
+Dat(v, nseg, nc) == <<"c", v, nseg, nc>>
+
 BreakIt(o, old) ==
     CASE Broken = "noinvalidate" -> [o EXCEPT !.dcReady = old.dcReady]
       [] Broken = "keeptable" -> [o EXCEPT !.ftReady = old.ftReady]
       [] OTHER -> o
 
 DoCtor(id, v, kind, nseg, nc) ==
-    /\ LET sh == Shape(kind, nseg, nc) IN PConstruct(id, Fixed, [v |-> v, nseg |-> nseg, nc |-> nc], sh.nbp, sh.rows, nc)
+    /\ LET sh == Shape(kind, nseg, nc) IN PConstruct(id, Fixed, Dat(v, nseg, nc), sh.nbp, sh.rows, nc)
     /\ hist' = Append(hist, [op |-> "ctor", obj |-> id, v |-> v, kind |-> kind, nseg |-> nseg, nc |-> nc])
     /\ last' = <<"ctor", id, v, kind, nseg, nc>>
 DoUpdate(id, v, kind, nseg, nc) ==
     /\ id \in PLive
     /\ LET sh == Shape(kind, nseg, nc)
-           good == Initialise(pobjs[id], pobjs[id].fixed, [v |-> v, nseg |-> nseg, nc |-> nc], sh.nbp, sh.rows, nc)
+           good == Initialise(pobjs[id], pobjs[id].fixed, Dat(v, nseg, nc), sh.nbp, sh.rows, nc)
        IN Put(id, IF Broken = "none" THEN good ELSE BreakIt(good, pobjs[id]))
     /\ hist' = Append(hist, [op |-> "update", obj |-> id, v |-> v, kind |-> kind, nseg |-> nseg, nc |-> nc])
     /\ last' = <<"update", id, v, kind, nseg, nc>>
@@ -39,7 +44,7 @@ DoEval(id, k) ==
 DoDeriv(dst, src, k) ==
     /\ dst # src
     /\ src \in PLive
-    /\ PDerivative(dst, src, k, [v |-> <<"d", pobjs[src].data, k>>, nseg |-> pobjs[src].nseg, nc |-> pobjs[src].nc - k])
+    /\ PDerivative(dst, src, k, pobjs[src].data \o <<"d", k>>)
     /\ hist' = Append(hist, [op |-> "derivative", dst |-> dst, src |-> src, k |-> k])
     /\ last' = <<"derivative", dst, src, k>>
 DoCopy(dst, src) ==
@@ -47,20 +52,27 @@ DoCopy(dst, src) ==
     /\ hist' = Append(hist, [op |-> "copy", dst |-> dst, src |-> src])
     /\ last' = <<"copy", dst, src>>
 DoAssign(dst, src) ==
-    /\ dst # src /\ PAssign(dst, src)
+    /\ dst # src
+    /\ IF Broken = "assignkeep" /\ src \in PLive /\ dst \in PLive
+       THEN LET so == pobjs[src]
+                d == pobjs[dst]
+                keepDc == IF so.dcReady THEN so ELSE [so EXCEPT !.dcReady = d.dcReady, !.dcVer = d.dcVer, !.dcNc = d.dcNc]
+                keepFt == IF so.ftReady THEN keepDc ELSE [keepDc EXCEPT !.ftReady = d.ftReady, !.ftNc = d.ftNc]
+            IN Put(dst, keepFt)
+       ELSE PAssign(dst, src)
     /\ hist' = Append(hist, [op |-> "assign", dst |-> dst, src |-> src])
     /\ last' = <<"assign", dst, src>>
 
 Init == PInit /\ hist = <<>> /\ last = <<>>
 Next ==
-    \/ \E id \in Ids, v \in Versions, kind \in Kinds, nseg \in Segs, nc \in Ncs : DoCtor(id, v, kind, nseg, nc) \/ DoUpdate(id, v, kind, nseg, nc)
-    \/ \E id \in Ids, k \in 0..3 : DoEval(id, k)
-    \/ \E d \in Ids, s \in Ids, k \in {1, 2} : DoDeriv(d, s, k)
+    \/ \E id \in Ids, v \in Versions, kind \in KindSet, nseg \in Segs, nc \in Ncs : DoCtor(id, v, kind, nseg, nc) \/ DoUpdate(id, v, kind, nseg, nc)
+    \/ \E id \in Ids, k \in EvalKs : DoEval(id, k)
+    \/ \E d \in Ids, s \in Ids, k \in DerivKs : DoDeriv(d, s, k)
     \/ \E d \in Ids, s \in Ids : DoCopy(d, s) \/ DoAssign(d, s)
 Spec == Init /\ [][Next]_mvars
 
 Bound == Len(hist) <= MaxOps
-AbsObj(o) == [init |-> o.init, data |-> o.data, nc |-> o.nc, nseg |-> o.nseg, dc |-> o.dcReady, dcCur |-> o.dcVer = o.ver,
+AbsObj(o) == [init |-> o.init, data |-> o.data, nc |-> o.nc, nseg |-> o.nseg, dc |-> o.dcReady, dcCur |-> o.dcVer = o.data,
               dcNc |-> o.dcNc, ft |-> o.ftReady, ftNc |-> o.ftNc, stale |-> o.stale]
 View == <<[i \in PLive |-> AbsObj(pobjs[i])], last>>
 EmitScripts == Bound /\ (Emit /\ Len(hist) > 0 => PrintT(<<"SCRIPT", ToJson(hist)>>))
